@@ -72,11 +72,17 @@ class SubclassCoercerProvider(NormTypeCoercerProvider):
             or is_parametrized(norm_src.source)
             or is_generic(norm_dst.source)
             or is_parametrized(norm_dst.source)
+            or self._is_empty_tuple(norm_src)
+            or self._is_empty_tuple(norm_dst)
         ):
             raise CannotProvide
         if is_subclass_soft(norm_src.origin, norm_dst.origin):
             return as_is_stub_with_ctx
         raise CannotProvide
+
+    def _is_empty_tuple(self, norm: BaseNormType) -> bool:
+        # tuple[()] is parametrized, but has no arguments
+        return norm.origin is tuple and not norm.args
 
 
 class MatchingCoercerProvider(CoercerProvider):
@@ -219,14 +225,14 @@ class IterableCoercerProvider(NormTypeCoercerProvider):
         return iterable_coercer
 
     def _parse_source(self, norm: BaseNormType) -> TypeHint:
-        if norm.origin is tuple and norm.args[-1] != Ellipsis:
+        if norm.origin is tuple and (not norm.args or norm.args[-1] != Ellipsis):
             raise CannotProvide("Constant-length tuple is not supported yet", is_demonstrative=True)
         if norm.origin in self.CONCRETE_ORIGINS or norm.origin in self.ABC_TO_IMPL:
             return norm.args[0].source
         raise CannotProvide
 
     def _parse_destination(self, norm: BaseNormType) -> tuple[Callable, TypeHint]:
-        if norm.origin is tuple and norm.args[-1] != Ellipsis:
+        if norm.origin is tuple and (not norm.args or norm.args[-1] != Ellipsis):
             raise CannotProvide("Constant-length tuple is not supported yet", is_demonstrative=True)
         if norm.origin in self.CONCRETE_ORIGINS:
             return norm.origin, norm.args[0].source
